@@ -1,10 +1,10 @@
 SPECIFICATION Spec
 CONSTANTS
-  Alphabet = {"lo", "up", "dg", "us", "st", "sp", "dd", "sl", "dq", "sq", "bt", "bs", "nl", "nu", "d2", "d3", "nd", "no", "ns", "iv", "l4", "u4", "n4", "s4", "cr", "lf", "ws", "z0", "cc", "pu"}
+  Alphabet = {"lo", "up", "dg", "us", "st", "sp", "dd", "sl", "dq", "sq", "bt", "bs", "nl", "nu", "d2", "d3", "nd", "no", "ns", "iv", "l4", "u4", "n4", "s4", "cr", "lf", "ws", "z0", "cc", "pu", "s2"}
   MaxLen = 2
   MinLen = 0
   Shapes = {"flat", "multi", "obj", "objmulti"}
   LimMode = "all"
-  Firsts = {"lo", "up", "dg", "us", "st", "sp", "dd", "sl", "dq", "sq", "bt", "bs", "nl", "nu", "d2", "d3", "nd", "no", "ns", "iv", "l4", "u4", "n4", "s4", "cr", "lf", "ws", "z0", "cc", "pu"}
+  Firsts = {"lo", "up", "dg", "us", "st", "sp", "dd", "sl", "dq", "sq", "bt", "bs", "nl", "nu", "d2", "d3", "nd", "no", "ns", "iv", "l4", "u4", "n4", "s4", "cr", "lf", "ws", "z0", "cc", "pu", "s2"}
   Sample = FALSE
 INVARIANT CheckAndEmit
